@@ -27,6 +27,7 @@ class Shim:
         L.iv_ps_xy.argtypes = [C.c_int, C.c_float, C.c_float, F32P]
         L.iv_map_set_offset.argtypes = [C.c_int, F32P, C.c_int]
         L.iv_map_force.argtypes = [C.c_int, F32P, C.c_int]
+        L.iv_map_ramp_offset.argtypes = [C.c_int, F32P, F32P, C.c_int, C.c_int]
         L.iv_map_rf_linear.argtypes = [C.c_int, C.c_int, C.c_float, C.c_float, C.c_int, C.c_int]
         L.iv_map_rf_sin.argtypes = [C.c_int, C.c_int, C.c_float, C.c_float, C.c_float, C.c_float, C.c_int, C.c_int]
         L.iv_map_dynrf_linear.argtypes = [C.c_int, C.c_int, C.c_uint, C.c_uint, C.c_float, C.c_double, C.c_double,
@@ -167,6 +168,12 @@ class Shim:
                 self._ck(self.lib.iv_map_set_offset(m, pre, len(pre)), "set_offset(prelude)")
         off = np.ascontiguousarray(off, np.float32)
         self._ck(self.lib.iv_map_set_offset(m, off, len(off)), "set_offset")
+
+    def map_ramp_offset(self, m, start, end, K):
+        """K consecutive swapOffset calls on the same map, moving the field in equal small steps from start to end"""
+        start = np.ascontiguousarray(start, np.float32)
+        end = np.ascontiguousarray(end, np.float32)
+        self._ck(self.lib.iv_map_ramp_offset(m, start, end, len(end), int(K)), "ramp_offset")
 
     def map_force(self, m, ln):
         out = np.zeros(ln, np.float32)
